@@ -3,7 +3,7 @@ import functools
 
 from hypothesis import strategies as st
 
-from vf.harness import HarnessError, Task, drive, hx, unhx
+from vf.harness import HarnessError, Task, drive, hx, same_by_name, unhx
 from vf.model import bls12381 as B
 from vf.model import blssig
 from vf.model.curves import BLS
@@ -143,6 +143,8 @@ def o_case(ctx, case):
                   f"KeyValidate = {kv}, model predicate = {pk_ok} ({case.get('pk_mut')}, {len(pk)} bytes)")
         ctx.label(f"keyvalidate:{pk_ok}")
     v = _call(ctx, case, "total", "Verify", lambda: S.Verify(pk, msg, sig), bad, why)
+    if case.get("n", 1) == 1 and isinstance(v, bool):
+        same_by_name(ctx, "total", case, S.Verify, (pk, msg, sig), v, "Verify")
     if case.get("honest") and not bad:
         ctx.check(v is True, "total", "honest_rejected", case, "an unmodified honest triple was rejected")
         ctx.label("accepted:honest")
